@@ -46,6 +46,39 @@ def toks_of(lines):
     return "".join(out), idx
 
 
+CONTROL = {"if", "else", "while", "for", "do", "switch"}
+
+
+def shifts(lines, idx):
+    """for every column-carrying line: (number of enclosing braced statement bodies, counting the brace lines of a body as inside
+    it; number of enclosing switch bodies, the switch's own braces not counted) -- what indent_brace / indent_switch_case add"""
+    res = {}
+    stack = []          # kinds of the open blocks: 'stmt', 'switch', 'other'
+    last_head = None
+    for k, (depth, toks, kind) in enumerate(lines):
+        if kind in ("blank", "cmt", "pp"):
+            continue
+        if kind == "open":
+            if last_head is not None and last_head[0] in CONTROL:
+                b = "switch" if last_head[0] == "switch" else "stmt"
+            else:
+                b = "other"
+            stack.append(b)
+            nb = sum(1 for x in stack if x in ("stmt", "switch"))
+            ns = sum(1 for x in stack[:-1] if x == "switch")
+            res[k] = (nb, ns)
+        elif kind == "close":
+            nb = sum(1 for x in stack if x in ("stmt", "switch"))
+            ns = sum(1 for x in stack[:-1] if x == "switch")
+            res[k] = (nb, ns)
+            if stack:
+                stack.pop()
+        else:
+            res[k] = (sum(1 for x in stack if x in ("stmt", "switch")), sum(1 for x in stack if x == "switch"))
+        last_head = toks if kind == "head" else None
+    return [res[k] for k in idx]
+
+
 def fix_close_depth(lines):
     """the generator emits '}' at the depth of its opener while the model depth before it is one deeper"""
     return lines
@@ -87,6 +120,12 @@ def run(ctx):
             tk, idx = toks_of(lines)
             opts = {"indent_columns": rng.choice([1, 2, 3, 4, 4, 8, 8, 16, rng.randrange(1, 17)]), "indent_with_tabs": rng.choice([0, 1, 2]),
                     "output_tab_size": rng.choice([2, 4, 8, 8, 3])}
+            # brace-style offsets with a closed form: every braced statement body moves by indent_brace, everything inside a switch
+            # body by indent_switch_case (the Lean model covers the default 0/0; the offsets are added here)
+            if rng.random() < 0.35:
+                opts["indent_brace"] = rng.choice([1, 2, 3])
+            if rng.random() < 0.35:
+                opts["indent_switch_case"] = rng.choice([1, 2, 3, opts["indent_columns"]])
             cfg = sc.cfg(None, opts)
             ext = {"C": ".c", "CPP": ".cpp", "JAVA": ".java"}[lang]
             lays = []
@@ -104,6 +143,9 @@ def run(ctx):
         bad_m = bad_c = skipped = 0
         for (lines, tk, idx, opts, lays, lang), mans in zip(progs, model):
             want = [int(x) for x in mans.split() if x != "-"]
+            sh = shifts(lines, idx)
+            if len(sh) == len(want):
+                want = [w + nb * opts.get("indent_brace", 0) + ns * opts.get("indent_switch_case", 0) for w, (nb, ns) in zip(want, sh)]
             ctx.case(tk + str(sorted(opts.items())), nontrivial="o" in tk)
             cols_per_layout = []
             for j in lays:
